@@ -121,7 +121,7 @@ func VerifNewQuorumLog(local ch.NodeID, store ReplicaStore, rec VerifRecovery, d
 	log, err := newQuorumLog(quorumLogConfig{
 		Local: local, Store: store, Recovery: d, Durability: d,
 		RecoveryTimeout: time.Minute, RecoveryPageBytes: 64 << 10,
-		MaxChannels: 8, MaxVoters: maxVoters, MaxProposalRecords: 256, MaxProposalBytes: 1 << 20,
+		MaxChannels: 8, MaxVoters: maxVoters, MaxProposalRecords: 3, MaxProposalBytes: 1 << 20, // the harness never proposes more than 3 records: a 3-record command is full-size
 		MaxRetainedCommands: maxRetained,
 	})
 	if err != nil {
